@@ -48,6 +48,33 @@ def validUtf8 : Bytes → Bool
                 else if b0 = 244 then 128 ≤ b1 && b1 ≤ 143 && isCont b2 && isCont b3 && validUtf8 r3
                 else false
 
+/-- text the readers treat like the list models do: valid UTF-8 without the lead bytes of non-ASCII white space -/
+def PlainText (f : Bytes) : Prop := validUtf8 f = true ∧ NoUws f
+
+instance (f : Bytes) : Decidable (PlainText f) := by unfold PlainText; infer_instance
+
+/-- what the writer's argument types give (`&str` id and description, byte-slice sequence) for the records the
+property speaks of: id and description valid UTF-8 (here: without non-ASCII white space), ASCII sequence -/
+structure TextFa (r : FaRec) : Prop where
+  id_ok : PlainText r.id
+  desc_ok : ∀ d, r.desc = some d → PlainText d
+  seq_ascii : ∀ b ∈ r.seq, b < 128
+
+structure TextFq (r : FqRec) : Prop where
+  id_ok : PlainText r.id
+  desc_ok : ∀ d, r.desc = some d → PlainText d
+  seq_ascii : ∀ b ∈ r.seq, b < 128
+  qual_ascii : ∀ b ∈ r.qual, b < 128
+
+instance (r : FaRec) : Decidable (TextFa r) :=
+  decidable_of_iff (PlainText r.id ∧ (∀ d, r.desc = some d → PlainText d) ∧ (∀ b ∈ r.seq, b < 128))
+    ⟨fun ⟨a, b, c⟩ => ⟨a, b, c⟩, fun ⟨a, b, c⟩ => ⟨a, b, c⟩⟩
+
+instance (r : FqRec) : Decidable (TextFq r) :=
+  decidable_of_iff (PlainText r.id ∧ (∀ d, r.desc = some d → PlainText d) ∧ (∀ b ∈ r.seq, b < 128) ∧
+      (∀ b ∈ r.qual, b < 128))
+    ⟨fun ⟨a, b, c, d⟩ => ⟨a, b, c, d⟩, fun ⟨a, b, c, d⟩ => ⟨a, b, c, d⟩⟩
+
 /-- `BufRead::read_line(&mut s)` with `s` empty: `none` = `Err(InvalidData)` (the bytes are consumed, `s` stays
 empty); `some []` = end of input -/
 def readLineStr (c : Nat) (sched : Nat → Nat) (s : St) : Option Bytes × St :=
